@@ -1350,7 +1350,7 @@ func TestGen(t *testing.T) {
 				c := &case32{}
 				must(json.Unmarshal(line, c))
 				if c.Cluster != "" { // a cluster-level case: re-run the whole (seeded) cluster stream
-					runCluster32(t, hx.NewRng(seed^0xC32), out, nextID, 2+n/60)
+					runCluster32(t, hx.NewRng(seed^0xC32), out, nextID, 3+n/60)
 					continue
 				}
 				c.ID = nextID() + "r"
@@ -1426,7 +1426,7 @@ func TestGen(t *testing.T) {
 			out.Emit(c)
 		}
 		// cluster-level stream (real Calcium, fake engine); its own generator so that a replay can re-run it
-		runCluster32(t, hx.NewRng(seed^0xC32), out, nextID, 2+n/60)
+		runCluster32(t, hx.NewRng(seed^0xC32), out, nextID, 3+n/60)
 	default:
 		t.Fatalf("unknown VERIF_PROPERTY %q", prop)
 	}
